@@ -904,6 +904,56 @@ def project_detect(e):
     return {"cands": cands, "symbolsOnly": (tset & symbol_set) == tset, "out": (names.index(e["out"]) + 1) if e["out"] in names else (0 if e["out"] is None else -1)}
 
 
+def install_chunk_probe():
+    if _PROBE.get("chunk_installed"):
+        return
+    _PROBE["chunk_installed"] = True
+    try:
+        from dateparser.languages.locale import Locale
+        o_align = Locale._simplify_split_align
+        o_ts = Locale.translate_search
+    except Exception:
+        _PROBE["unbound"].append("Locale.translate_search / _simplify_split_align")
+        return
+
+    def _simplify_split_align(self, original, settings):
+        r = o_align(self, original, settings)
+        cur = getattr(_state, "aligns", None)
+        if cur is not None:
+            cur.append((list(r[0]), list(r[1])))
+        return r
+
+    def translate_search(self, search_string, settings=None):
+        _state.aligns = []
+        try:
+            r = o_ts(self, search_string, settings)
+        finally:
+            al, _state.aligns = _state.aligns, None
+        _events().append({"ev": "tsearch", "loc": self, "settings": settings, "aligns": al, "original": list(r[1])})
+        return r
+    Locale._simplify_split_align = _simplify_split_align
+    Locale.translate_search = translate_search
+
+
+def project_chunks(e):
+    """one translate_search call in the abstract form of spec/SearchChunks.tla: per sentence, per token, the flags"""
+    from dateparser.timezone_parser import word_is_tz
+    loc, st = e["loc"], e["settings"]
+    d = loc._get_dictionary(settings=st)
+    dashes = ["-", "\u2014\u2014", "\u2014", "\uff5e"]
+    strip = "()\"'{}[],.\u060c"
+    sents = []
+    for orig, simp in e["aligns"]:
+        toks = []
+        for i, w in enumerate(simp):
+            nxt = simp[i + 1] if i < len(simp) - 1 else ""
+            toks.append({"blank": w in ("", " "), "dash": w in dashes, "joint": loc._join_chunk([w, nxt], settings=st) in d, "known": w in d,
+                         "stripped": w.strip(strip) in d, "digits": bool(loc._token_with_digits_is_ok(w)), "tz": bool(word_is_tz(orig[i])) if i < len(orig) else False})
+        sents.append({"t": toks, "orig": list(orig)})
+    nospace = "no_word_spacing" in loc.info
+    return {"sents": sents, "jointOK": loc.shortname not in ("zh", "ja"), "nospace": nospace, "original": e["original"]}
+
+
 def call_search(case):
     """case: {text, languages | null, settings, withlang} -> projected result"""
     import datetime as _d
@@ -914,6 +964,10 @@ def call_search(case):
     probe_detect = bool(case.get("languages")) and len(case["languages"]) >= 2
     if probe_detect:
         install_detect_probe()
+        _state.events = []
+    probe_chunks = bool(case.get("chunks"))
+    if probe_chunks:
+        install_chunk_probe()
         _state.events = []
     for t_ in case.get("pre") or []:      # earlier searches of the same process (not judged here)
         try:
@@ -926,6 +980,15 @@ def call_search(case):
         res["exc"] = type(e).__name__
         res["msg"] = str(e)[:200]
         return res
+    if probe_chunks:
+        res["chunks"] = []
+        for e_ in [x for x in _state.events if x.get("ev") == "tsearch"][-1:]:
+            try:
+                res["chunks"].append(project_chunks(e_))
+            except Exception as x:  # noqa
+                res["chunks_error"] = "%s: %s" % (type(x).__name__, x)
+        if not probe_detect:
+            _state.events = []
     if probe_detect:
         for e_ in [x for x in _state.events if x.get("ev") == "detect"][-1:]:
             try:
